@@ -1,33 +1,233 @@
-"""C01 — path access: generators, implementation runner, shrinker."""
+"""C01 — path access: class catalogue, generators, implementation runner, shrinker."""
 import json
+import operator
 import os
 import random
+import sys
+from collections import Counter, OrderedDict, namedtuple
 
 from harness import pyobjs
 
 PROP = 'C01'
 LEAN_MODULES = ['Glom.Props.C01']
-FACT_FILES = ['TFacts', 'ExcFacts', 'RegFacts']
+FACT_FILES = ['TFacts', 'ExcFacts', 'RegFacts', 'C01Facts', 'c01']
 READY = True
 MANIFEST = dict(
-    text="Lean 4 theorems: `_t_eval`'s flat-tuple loop refines the left-to-right walk for every heap, target and path of any length (same object on success, PathAccessError(k, e) at the first failing segment, nothing touched after it), `Path.from_text` = `Path(*segs)`, PathAccessError's bases; per-run facts obligation by `decide` on the tables regenerated from /repo; model tied to the code by differential execution through the compiled Lean driver.",
-    note="trusted: Lean kernel + {propext, Classical.choice, Quot.sound}; extractor; harness/driver; CPython access primitives (getattr/subscription/int()) as modelled in Glom/Py/Access.lean and validated by the correspondence; default registry only (C13 covers registration); segments within int() subset [+-]?[0-9]+.",
-    technique='Lean 4 refinement proof (flat ops loop = structural walk) + facts obligation by decide + differential correspondence',
+    text="Lean 4 theorems: `_t_eval`'s flat-tuple loop, with the registry (type map, fuzzy types, memo of resolved handlers) threaded through it, refines the left-to-right walk under the handler table in force at the time of the call — for every heap, target, path of any length, every handler table and handler semantics, every history of register/glom calls of one Glommer (same object on success, PathAccessError(k, e) at the first failing segment, nothing touched after it; memo coherence is an invariant of every history); `Path.from_text` = `Path(*segs)`; PathAccessError's bases; `int()` segment parsing (whitespace, underscores, Unicode digits, digit limit); per-run facts obligation by `decide` on the tables regenerated from /repo (branch table of `_t_eval`, exception MROs, default registrations, shape of `register`/`get_handler`); model tied to the code by differential execution through the compiled Lean driver.",
+    note="trusted: Lean kernel + {propext, Classical.choice, Quot.sound}; extractor; harness/driver; CPython access primitives (getattr incl. properties / __getattr__ / __slots__ / namedtuple fields / class attributes as opaque objects, subscription incl. __missing__, int() incl. whitespace/underscores/Unicode digits/digit limit) as modelled in Glom/Model/C01Py.lean and validated by the correspondence; the closest-type search of the registry is taken as 'nearest fuzzily registered class of the effective MRO' (C13 proves the search); values of class attributes are not modelled (reached as opaque objects, accesses on them are outside the domain).",
+    technique='Lean 4 refinement proof (flat ops loop with registry state = structural walk under the table in force; memo-coherence invariant over histories) + facts obligation by decide + differential correspondence',
     ref='DESIGN.md §3 C01')
-RULE = ('type-directed: a nested target (dict/OrderedDict/list/tuple/attribute objects/scalars, with '
-        'shared sub-objects and cycles through mutable containers, plain or access-logging classes) is '
-        'generated as a heap graph, a valid path of length 0-6 (quick) / 0-10 (thorough) is derived by '
-        'walking it, then spelled as dotted text, Path(...) or a mixture with T steps, and a one-edit '
-        'mutation stream plants an invalid segment (missing key, out-of-range / non-numeric index, '
-        'missing attribute, wrong access kind, scalar in the middle) at every position; thorough also '
-        'enumerates all paths of length <= 3 over a 4-name alphabet on fixed targets. non-trivial = '
-        'path length >= 2 or a failing path; distinct = distinct (heap, target, spelling)')
-TRUSTED = ['attribute names in generated targets are disjoint from real attributes of builtin types; '
-           'path segments stay in the int() subset [+-]?[0-9]+ (stated bound)']
-ASSUMPTIONS = ['default registry (no user registrations): C13 covers registration', 'PATH_STAR = True']
+RULE = ('type-directed: a nested target (dict/OrderedDict/Counter/dict subclasses with __missing__, list, tuple, '
+        'namedtuples, attribute objects incl. __slots__, raising/returning properties, __getattr__ fallbacks, '
+        'scalars; shared sub-objects and cycles through mutable containers; plain or access-logging classes) is '
+        'generated as a heap graph; a history of 1-3 glom calls and 0-2 register calls (get = getattr / getitem / '
+        '_get_sequence_item / private-table lookup / raising handler / False / no get keyword, on a class of the '
+        'target, one of its bases or a builtin, exact or not; before the first access, between two accesses, '
+        'after) on one Glommer (default registrations or none); each path (length 0-6 quick / 0-10 thorough) is '
+        'derived by walking the target under the handlers in force, spelled as dotted text, Path(...) or a mixture '
+        'with T steps, and a one-edit mutation stream plants an invalid segment (missing key, out-of-range / '
+        'non-numeric index, int() spellings with whitespace, underscores, Unicode digits, over-long digit strings, '
+        'missing attribute, wrong access kind, scalar in the middle, class attribute) at every position; plus an '
+        'int() battery (random strings over digits of several Unicode blocks, underscores, signs, every kind of '
+        'whitespace, near misses, digit-limit boundary) and an attribute battery (every name of dir() of every '
+        'catalogue class and scalar, and names they lack); thorough also enumerates all paths of length <= 3 over a '
+        '4-name alphabet on fixed targets and all histories of length <= 4 over 3 calls and 4 registrations. '
+        'non-trivial = a path of length >= 2 or a failing path; distinct = distinct (heap, events)')
+TRUSTED = ['values of class attributes (bound methods, __class__, __doc__, …) are not modelled: reached as opaque objects; '
+           'handlers and class hooks come from the catalogue in harness/props/c01.py (the theorems hold for every handler semantics)']
+ASSUMPTIONS = ['the closest-type search is the nearest fuzzily registered class of the effective MRO (real bases, then '
+               "glom's two duck types, then object): proved from the tree search in C13", 'PATH_STAR = True']
 
 NAMES = ['a', 'b', 'c', 'k0']
 SCALARS = [None, True, False, 0, 1, 7, -3, 'x', 'abc', '']
+
+
+# ------------------------------------------------------------------ class catalogue
+class Rec:
+    """plain attribute object; the Rec family is what handlers get registered for"""
+    def __init__(self, **kw):
+        self.__dict__.update(kw)
+
+
+class Row(Rec):
+    pass
+
+
+class Row2(Row):
+    pass
+
+
+class Mix:
+    def helper(self):
+        return 1
+
+
+class RowM(Mix, Row):
+    pass
+
+
+Pt = namedtuple('Pt', ['a', 'b'])
+Pt1 = namedtuple('Pt1', ['k0'])
+
+
+class Slots:
+    __slots__ = ('a', 'b', 'c')
+
+
+class SlotsFb(Slots):
+    __slots__ = ()
+
+    def __getattr__(self, name):
+        return name
+
+
+def _raise(cls):
+    def f(self):
+        raise cls('catalogue property')
+    return f
+
+
+class Prop:
+    pa = property(_raise(AttributeError))
+    pv = property(_raise(ValueError))
+    pc = property(lambda self: 7)
+    ps = property(lambda self: object.__getattribute__(self, 'a'))
+
+
+class PropFb(Prop):
+    def __getattr__(self, name):
+        return 'fb'
+
+
+class Fb:
+    def __getattr__(self, name):
+        return object.__getattribute__(self, '_tab')[name]
+
+
+class FbVal:
+    def __getattr__(self, name):
+        raise ValueError(name)
+
+
+class DMissEcho(dict):
+    def __missing__(self, key):
+        return key
+
+
+class DMissVal(dict):
+    def __missing__(self, key):
+        raise ValueError(key)
+
+
+class DMissKey(dict):
+    def __missing__(self, key):
+        raise KeyError(key)
+
+
+class Boom(Exception):
+    pass
+
+
+class BoomKey(KeyError):
+    pass
+
+
+# class-level behaviour declared next to the classes above (the model's ClsInfo)
+DECL = {
+    'SlotsFb': {'fallback': 'echo'},
+    'Prop': {'props': [['pa', {'raises': 'AttributeError'}], ['pv', {'raises': 'ValueError'}],
+                       ['pc', {'const': {'i': 7}}], ['ps', {'slot': 'a'}]]},
+    'PropFb': {'fallback': {'const': {'s': 'fb'}}},
+    'Fb': {'fallback': {'table': '_tab'}},
+    'FbVal': {'fallback': {'raises': 'ValueError'}},
+    'DMissEcho': {'missing': 'echo'},
+    'DMissVal': {'missing': {'raises': 'ValueError'}},
+    'DMissKey': {'missing': {'raises': 'KeyError'}},
+    'Counter': {'missing': {'const': {'i': 0}}},
+}
+
+NEW_CLASSES = [Rec, Row, Row2, Mix, RowM, Pt, Pt1, Slots, SlotsFb, Prop, PropFb, Fb, FbVal,
+               DMissEcho, DMissVal, DMissKey, Counter]
+CLASSES = dict(pyobjs.CLASSES)
+CLASSES.update({c.__name__: c for c in NEW_CLASSES})
+BUILTIN_REG = {'object': object, 'dict': dict, 'list': list, 'tuple': tuple, 'OrderedDict': OrderedDict,
+               'int': int, 'str': str}
+EXCS = {c.__name__: c for c in [KeyError, IndexError, AttributeError, TypeError, ValueError, RuntimeError,
+                                ZeroDivisionError, StopIteration, OSError, LookupError, Boom, BoomKey]}
+
+
+def layout_of(cls):
+    if issubclass(cls, dict):
+        return 'dict'
+    if issubclass(cls, list):
+        return 'list'
+    if issubclass(cls, tuple):
+        return 'tuple'
+    if issubclass(cls, (set, frozenset)):
+        return 'set'
+    return 'inst'
+
+
+LAYOUT = {n: layout_of(c) for n, c in CLASSES.items()}
+TAB_CLASSES = ['Rec', 'Row', 'Row2', 'RowM', 'Fb', 'PropFb']     # instances may carry a private table `_tab`
+
+
+def sample_of(cls):
+    if hasattr(cls, '_fields'):
+        return cls(*[None] * len(cls._fields))
+    return cls.__new__(cls)
+
+
+def eff_mro(cls):
+    """the MRO as glom's closest-type search ranks it: real base classes, then the two duck
+    types (_AbstractIterable: the class has a callable __iter__; _ObjStyleKeys: instances have a
+    __dict__), then object — computed here without consulting glom"""
+    x = sample_of(cls)
+    names = [k.__name__ for k in cls.__mro__ if k is not object]
+    duck = []
+    if callable(getattr(cls, '__iter__', None)) and cls not in (str, bytes):
+        duck.append('_AbstractIterable')
+    if hasattr(x, '__dict__') and hasattr(x.__dict__, 'keys'):
+        duck.append('_ObjStyleKeys')
+    return names + duck + ['object']
+
+
+def cls_info(cls):
+    decl = DECL.get(cls.__name__, {})
+    own = vars(cls)
+    fields = list(cls._fields) if (issubclass(cls, tuple) and '_fields' in own) else []
+    props = decl.get('props', [])
+    slots = own.get('__slots__', ())
+    slots = (slots,) if isinstance(slots, str) else tuple(slots)
+    skip = set(fields) | {p[0] for p in props} | set(slots)
+    x = sample_of(cls)
+    attrs = []
+    for n in sorted(own):
+        if n in skip:
+            continue
+        try:
+            getattr(x, n)
+        except Exception:
+            continue
+        attrs.append(n)
+    return {'fields': fields, 'props': props, 'attrs': attrs,
+            'fallback': decl.get('fallback'), 'missing': decl.get('missing')}
+
+
+_TABLES = {}
+
+
+def tables():
+    if not _TABLES:
+        _TABLES['classes'] = [[n, eff_mro(c)] for n, c in CLASSES.items()]
+        _TABLES['info'] = [[n, cls_info(c)] for n, c in CLASSES.items()
+                           if c not in (dict, list, tuple, set, frozenset, OrderedDict)]
+        _TABLES['excs'] = [[n, [k.__name__ for k in c.__mro__]] for n, c in EXCS.items()
+                           if c in (Boom, BoomKey)]
+        _TABLES['mro'] = {n: m for n, m in _TABLES['classes']}
+        for b in (int, str, bool, type(None), object):
+            _TABLES['mro'][b.__name__] = [k.__name__ for k in b.__mro__]
+    return _TABLES
 
 
 def jval(v):
@@ -40,9 +240,10 @@ def jval(v):
     return {'s': v}
 
 
+# ------------------------------------------------------------------ heap generation
 class HeapGen:
-    def __init__(self, rng, logging, maxdepth):
-        self.rng, self.logging, self.maxdepth = rng, logging, maxdepth
+    def __init__(self, rng, logging, maxdepth, fancy):
+        self.rng, self.logging, self.maxdepth, self.fancy = rng, logging, maxdepth, fancy
         self.heap = []
         self.open_mut = []   # addresses of mutable ancestors (cycle targets)
         self.closed = []     # completed cells (sharing targets)
@@ -51,10 +252,16 @@ class HeapGen:
         r = self.rng
         if self.logging:
             return {'dict': 'LDict', 'list': 'LList', 'tuple': 'LTuple', 'inst': 'LObj'}[lay]
+        f = self.fancy
         if lay == 'dict':
-            return r.choice(['dict', 'dict', 'OrderedDict'])
+            return r.choice(['dict', 'dict', 'OrderedDict'] +
+                            (['Counter', 'DMissEcho', 'DMissVal', 'DMissKey'] if f else []))
         if lay == 'inst':
-            return r.choice(['Obj', 'Obj', 'Obj2'])
+            return r.choice(['Obj', 'Obj', 'Obj2'] +
+                            (['Rec', 'Row', 'Row', 'Row2', 'RowM', 'Slots', 'SlotsFb', 'Prop', 'PropFb',
+                              'Fb', 'FbVal'] if f else []))
+        if lay == 'tuple' and f:
+            return r.choice(['tuple', 'tuple', 'Pt', 'Pt1'])
         return lay
 
     def node(self, depth):
@@ -66,15 +273,21 @@ class HeapGen:
             return {'r': r.choice(self.closed)}
         if p < 0.33 and self.open_mut:
             return {'r': r.choice(self.open_mut)}
-        lay = r.choice(['dict', 'dict', 'list', 'tuple', 'inst'])
+        lay = r.choice(['dict', 'dict', 'list', 'tuple', 'inst', 'inst'] if self.fancy
+                       else ['dict', 'dict', 'list', 'tuple', 'inst'])
         n = r.choice([0, 1, 2, 2, 3])
+        cname = self.cls(lay)
+        if cname == 'Pt':
+            n = 2
+        elif cname == 'Pt1':
+            n = 1
         if lay == 'tuple' and n == 0 and not self.logging:
             # CPython has exactly one empty tuple object: one cell for it, however often it occurs
             for a0, c0 in enumerate(self.heap):
                 if c0['k'] == 'tuple' and c0['c'] == 'tuple' and not c0['v'] and a0 in self.closed:
                     return {'r': a0}
         a = len(self.heap)
-        cell = {'k': lay, 'c': self.cls(lay), 'v': []}
+        cell = {'k': lay, 'c': cname, 'v': []}
         self.heap.append(cell)
         mutable = lay != 'tuple'
         if mutable:
@@ -83,8 +296,21 @@ class HeapGen:
             keys = r.sample(NAMES + [0, 1, '0', '1', '-1', 'x y'], n)
             cell['v'] = [[jval(k), self.node(depth + 1)] for k in keys]
         elif lay == 'inst':
-            keys = r.sample(NAMES, min(n, len(NAMES)))
+            pool = ['a', 'b', 'c'] if cname in ('Slots', 'SlotsFb') else NAMES
+            keys = r.sample(pool, min(n, len(pool)))
+            if cname in ('Prop', 'PropFb') and r.random() < 0.3:
+                keys.append('pc')                      # shadowed by the property
+            if cname == 'RowM' and r.random() < 0.3:
+                keys.append('helper')                  # shadows the method
             cell['v'] = [[k, self.node(depth + 1)] for k in keys]
+            if cname in TAB_CLASSES and r.random() < 0.7:
+                ta = len(self.heap)
+                tcell = {'k': 'dict', 'c': 'dict', 'v': []}
+                self.heap.append(tcell)
+                tkeys = r.sample(NAMES, r.choice([1, 2, 3]))
+                tcell['v'] = [[jval(k), self.node(depth + 1)] for k in tkeys]
+                self.closed.append(ta)
+                cell['v'].append(['_tab', {'r': ta}])
         else:
             cell['v'] = [self.node(depth + 1) for _ in range(n)]
         if mutable:
@@ -93,37 +319,105 @@ class HeapGen:
         return {'r': a}
 
 
-def gen_target(rng, logging, maxdepth):
-    g = HeapGen(rng, logging, maxdepth)
+def gen_target(rng, logging, maxdepth, fancy=False):
+    g = HeapGen(rng, logging, maxdepth, fancy)
     root = g.node(0)
-    if 'r' not in (root or {}):
-        # scalar root: still a valid target
-        return g.heap, root
     return g.heap, root
 
 
-def children(heap, val):
-    """[(kind, key_json, child_val)] for a value"""
+# ------------------------------------------------------------------ generator-side mirror of the table
+DEFAULT_TABLE = {'object': 'getattr', 'dict': 'getitem', 'list': 'seq', 'tuple': 'seq',
+                 'OrderedDict': 'getitem', '_AbstractIterable': 'getattr', '_ObjStyleKeys': 'getattr'}
+
+
+class TableMirror:
+    """which handler the generator expects to be in force (only used to derive mostly-valid
+    paths; the oracle is the Lean model)"""
+    def __init__(self):
+        self.map = dict(DEFAULT_TABLE)
+        self.tree = set(DEFAULT_TABLE)
+
+    def register(self, reg):
+        h = reg['get']
+        if h is None:
+            h = self.map.get(reg['cls'], 'getattr')
+        self.map[reg['cls']] = h
+        if not reg['exact']:
+            self.tree.add(reg['cls'])
+
+    def handler(self, cname):
+        for c in tables()['mro'].get(cname, [cname, 'object']):
+            if (c == cname and c in self.map) or c in self.tree:
+                return self.map[c]
+        return False
+
+
+def val_cls(heap, val):
+    if val is None:
+        return 'NoneType'
+    if 'r' in val:
+        return heap[val['r']]['c']
+    return {'b': 'bool', 'i': 'int', 's': 'str'}[next(iter(val))]
+
+
+def children(heap, val, hn):
+    """[(kind, key_json, child_val)] for a value; kinds: key / idx / attr / tab"""
     if not isinstance(val, dict) or 'r' not in val:
         return []
     cell = heap[val['r']]
+    out = []
     if cell['k'] == 'dict':
-        return [('key', k, v) for k, v in cell['v']]
-    if cell['k'] in ('list', 'tuple'):
-        return [('idx', {'i': i}, v) for i, v in enumerate(cell['v'])]
-    if cell['k'] == 'inst':
-        return [('attr', {'s': k}, v) for k, v in cell['v']]
-    return []
+        out = [('key', k, v) for k, v in cell['v']]
+    elif cell['k'] in ('list', 'tuple'):
+        out = [('idx', {'i': i}, v) for i, v in enumerate(cell['v'])]
+        fields = getattr(CLASSES[cell['c']], '_fields', None)
+        if fields and len(fields) == len(cell['v']):
+            out += [('attr', {'s': f}, v) for f, v in zip(fields, cell['v'])]
+    elif cell['k'] == 'inst':
+        attrs = dict((k, v) for k, v in cell['v'])
+        props = {p[0] for p in DECL.get(cell['c'], {}).get('props', [])}
+        for b in CLASSES[cell['c']].__mro__:
+            props |= {p[0] for p in DECL.get(b.__name__, {}).get('props', [])}
+        out = [('attr', {'s': k}, v) for k, v in cell['v'] if not k.startswith('_') and k not in props]
+        if 'ps' in props and 'a' in attrs:
+            out.append(('attr', {'s': 'ps'}, attrs['a']))
+        tab = attrs.get('_tab')
+        if tab is not None and 'r' in tab:
+            entries = [(k, v) for k, v in heap[tab['r']]['v']]
+            if cell['c'] == 'Fb':
+                out += [('attr', k, v) for k, v in entries if k['s'] not in attrs]
+            if hn == {'table': '_tab'}:
+                out += [('tab', k, v) for k, v in entries]
+    return out
 
 
-def valid_walk(rng, heap, root, length):
-    """list of (kind, key_json, value_before) along a random valid path"""
+def p_valid(kind, key, hn):
+    """can the step be written as a plain Path segment under handler hn?"""
+    if hn == 'getattr':
+        return kind == 'attr'
+    if hn == 'getitem':
+        return kind in ('key', 'idx')
+    if hn == 'seq':
+        return kind == 'idx'
+    if hn == {'table': '_tab'}:
+        return kind == 'tab'
+    return False
+
+
+def valid_walk(rng, heap, root, length, mirror, via=None):
+    """list of (kind, key_json, value_before) along a random valid path; `via`: class names the
+    walk should try to pass through"""
     cur = root
     out = []
     for _ in range(length):
-        ch = children(heap, cur)
+        hn = mirror.handler(val_cls(heap, cur))
+        ch = children(heap, cur, hn)
         if not ch:
             break
+        if via:
+            pref = [c for c in ch if isinstance(c[2], dict) and 'r' in c[2] and heap[c[2]['r']]['c'] in via]
+            if pref and rng.random() < 0.7:
+                ch = pref
         kind, key, nxt = rng.choice(ch)
         n = len(heap[cur['r']]['v'])
         if kind == 'idx' and rng.random() < 0.3:
@@ -149,16 +443,69 @@ def seg_text(kind, key):
 
 
 BAD_SEGS = [{'s': 'zz'}, {'s': '99'}, {'s': '-99'}, {'s': 'x'}, {'i': 99}, {'i': -99}, {'s': ''},
-            None, {'b': True}, {'s': '1.5'}, {'s': '+1'}, {'s': '0'}, {'i': 0}]
+            None, {'b': True}, {'s': '1.5'}, {'s': '+1'}, {'s': '0'}, {'i': 0}, {'s': '_tab'}, {'s': 'pa'},
+            {'s': 'pv'}, {'s': 'pc'}, {'s': 'ps'}, {'b': False}]
+CLS_ATTRS = ['__class__', '__doc__', 'keys', 'items', 'get', 'append', 'count', 'index', 'upper', 'real',
+             '__len__', '__dict__', 'helper', '_fields', '_asdict', '__missing__', 'most_common', '__hash__',
+             '__slots__', '__module__', '__getattr__', 'copy', 'bit_length', 'denominator', 'imag', '__init__',
+             '__eq__', '__iter__', 'pa', 'pv', 'pc', 'ps', '__getattribute__', 'move_to_end', '__weakref__']
+ARABIC = {ord(str(d)): 0x0660 + d for d in range(10)}
+FULLW = {ord(str(d)): 0xFF10 + d for d in range(10)}
+MATHD = {ord(str(d)): 0x1D7CE + d for d in range(10)}
+BAD_INTS = ['1_', '_1', '1__0', '+ 1', '\x1c1', '1\x1f', '−1', '', ' ', '1.0', '1e0', '0x1', '0b1',
+            '﻿1', 'Ⅷ', '²', '1 1', '+-1', '++1', '-', '+', '_', '1\x00', '١_', 'O']
 
 
-def make_parts(rng, steps, style):
-    """steps: [(kind,key)] -> spelling dict"""
+def int_spelling(rng, i):
+    """a string Python's int() reads as i (or, with small probability, a near miss)"""
+    s = str(i)
+    m = rng.randrange(14)
+    if m == 0:
+        return ' ' + s
+    if m == 1:
+        return s + '\t\n'
+    if m == 2:
+        return ' ' + s + ' '
+    if m == 3 and i >= 0:
+        return '+' + s
+    if m == 4:
+        return s.translate(ARABIC)
+    if m == 5:
+        return s.translate(FULLW)
+    if m == 6:
+        return s.translate(MATHD)
+    if m == 7:
+        sign, digits = (s[0], s[1:]) if s[0] == '-' else ('', s)
+        return sign + '0_0' + digits
+    if m == 8:
+        sign, digits = (s[0], s[1:]) if s[0] == '-' else ('', s)
+        return sign + '00' + digits
+    if m == 9:
+        sign, digits = (s[0], s[1:]) if s[0] == '-' else ('', s)
+        return '　' + sign + digits.translate(ARABIC)[:1] + digits[1:] + '\x0c'
+    if m == 10:
+        sign, digits = (s[0], s[1:]) if s[0] == '-' else ('', s)
+        pad = rng.choice([4299, 4300, 4301]) - len(digits)
+        return sign + '0' * pad + digits          # at, just under and just over the digit limit
+    if m == 11:
+        return rng.choice(BAD_INTS)
+    if m == 12:
+        return s + rng.choice(['_', ' _', '\x1d', '.'])
+    return s
+
+
+def make_parts(rng, steps, style, heap_classes):
+    """steps: [(kind, key, hn)] -> spelling dict; hn = handler the generator expects in force"""
     if style == 'text':
-        return {'text': '.'.join(seg_text(k, key) for k, key in steps)}
+        return {'text': '.'.join(seg_text(k, key) for k, key, _ in steps)}
     parts = []
-    for kind, key in steps:
-        if kind != 'tbad' and (style == 'path' or (style == 'mixed' and rng.random() < 0.5)):
+    for kind, key, hn in steps:
+        as_seg = kind != 'tbad' and (style == 'path' or (style == 'mixed' and rng.random() < 0.5))
+        if kind == 'tab' or kind == 'seg':
+            as_seg = True
+        elif as_seg and hn is not None and not p_valid(kind, key, hn) and rng.random() < 0.85:
+            as_seg = False                      # keep the path valid: spell it as a T step
+        if as_seg:
             # plain Path segment; list indices may be given as int or as digit string
             if kind == 'idx' and isinstance(key, dict) and 'i' in key and rng.random() < 0.5:
                 parts.append({'seg': {'s': str(key['i'])}})
@@ -174,71 +521,239 @@ def make_parts(rng, steps, style):
     return {'parts': parts}
 
 
+def gen_steps(rng, heap, root, maxlen, mirror, via=None):
+    """one path: (steps [(kind, key, hn)], spelling)"""
+    length = rng.randint(0, maxlen)
+    walk, leaf = valid_walk(rng, heap, root, length, mirror, via)
+    steps = [(k, key, mirror.handler(val_cls(heap, cur))) for k, key, cur in walk]
+    mode = rng.random()
+    if mode < 0.40 or not steps:
+        pass                                    # valid path (may be shorter than asked)
+    elif mode < 0.50:
+        # boundary indices of a sequence: -n-1, -2n, -n, n, n-1 (just outside / just inside)
+        cands = [i for i, (_, _, cur) in enumerate(walk) if isinstance(cur, dict) and 'r' in cur
+                 and heap[cur['r']]['k'] in ('list', 'tuple')]
+        if cands:
+            k = rng.choice(cands)
+            n_ = len(heap[walk[k][2]['r']]['v'])
+            steps[k] = ('idx', {'i': rng.choice([-n_ - 1, -2 * n_, -n_, n_, n_ - 1, -n_ - 2, -2 * n_ - 1, 2 * n_])},
+                        steps[k][2])
+            steps = steps[:k + 1] + steps[k + 1:][:rng.randint(0, 2)]
+    elif mode < 0.60:
+        # int() spellings of an index segment on a sequence (plain segment: _get_sequence_item)
+        cands = [i for i, (kd, key, _) in enumerate(steps) if kd == 'idx' and 'i' in key]
+        if cands:
+            k = rng.choice(cands)
+            steps[k] = ('seg', {'s': int_spelling(rng, steps[k][1]['i'])}, steps[k][2])
+        else:
+            steps.append(('seg', {'s': int_spelling(rng, 0)}, None))
+    elif mode < 0.73:
+        k = rng.randrange(len(steps))           # plant an invalid segment at position k
+        kind = steps[k][0]
+        steps[k] = (kind if rng.random() < 0.6 and kind != 'tab' else rng.choice(['key', 'idx', 'attr']),
+                    rng.choice(BAD_SEGS), None)
+        if steps[k][0] == 'attr' and not (isinstance(steps[k][1], dict) and 's' in steps[k][1]):
+            steps[k] = ('key', steps[k][1], None)
+    elif mode < 0.85:
+        # continue past the leaf (scalar in the middle / beyond the end)
+        for _ in range(rng.randint(1, 2)):
+            steps.append((rng.choice(['key', 'idx', 'attr']), rng.choice(
+                [{'s': 'a'}, {'s': '0'}, {'i': 0}, {'s': 'zz'}]), None))
+            if steps[-1][0] == 'attr' and 's' not in steps[-1][1]:
+                steps[-1] = ('key', steps[-1][1], None)
+    elif mode < 0.93:
+        # a class attribute (method, dunder name) reached by name: at the end, or in the middle
+        name = {'s': rng.choice(CLS_ATTRS)}
+        if rng.random() < 0.8:
+            steps.append(('attr', name, None))
+        else:
+            k = rng.randrange(len(steps))
+            steps[k] = ('attr', name, None)
+            steps = steps[:k + 1 + rng.randint(0, 1)]
+    else:
+        # wrong access kind at position k (T.attr on a dict, T[...] on an object)
+        k = rng.randrange(len(steps))
+        kind, key, _ = steps[k]
+        if isinstance(key, dict) and 's' in key and not key['s'].startswith('__'):
+            steps[k] = ('tbad', ['.', key], None) if kind != 'attr' else ('tbad', ['[', key], None)
+        else:
+            steps[k] = ('tbad', ['[', {'s': 'zz'}], None)
+    can_text = all(k != 'tbad' and text_ok(k, key) for k, key, _ in steps)
+    styles = ['path', 'mixed', 'mixed'] + (['text', 'text'] if can_text else [])
+    if any(k == 'tbad' for k, _, _ in steps):
+        styles = ['mixed']
+    style = rng.choice(styles)
+    if style == 'text':
+        # text is all plain segments: only where that keeps most of the path valid
+        bad = sum(1 for k, key, hn in steps if hn is not None and not p_valid(k, key, hn))
+        if bad and rng.random() < 0.8:
+            style = 'mixed'
+    return make_parts(rng, steps, style, None)
+
+
+HANDLERS_INST = ['getattr', {'table': '_tab'}, {'table': '_tab'}, {'table': '_tab'}, 'getitem',
+                 {'raises': 'KeyError'}, {'raises': 'RuntimeError'}, {'raises': 'Boom'}, {'raises': 'BoomKey'},
+                 {'raises': 'StopIteration'}, False, None]
+HANDLERS_DICT = ['getattr', 'getattr', 'seq', 'getitem', {'raises': 'ZeroDivisionError'},
+                 {'raises': 'IndexError'}, False, None]
+HANDLERS_SEQ = ['getattr', 'getattr', 'getitem', 'seq', {'raises': 'OSError'}, {'raises': 'LookupError'}, False, None]
+
+
+def gen_registration(rng, heap):
+    present = sorted({c['c'] for c in heap})
+    pool = []
+    for cn in present:
+        cls = CLASSES[cn]
+        for b in cls.__mro__:
+            if b is object:
+                continue
+            if b.__name__ in CLASSES or b.__name__ in BUILTIN_REG:
+                pool.append(b.__name__)
+    if not pool or rng.random() < 0.08:
+        pool = pool + ['object', 'int', 'str', 'Row', 'Rec']
+    cn = rng.choice(pool)
+    cls = CLASSES.get(cn) or BUILTIN_REG[cn]
+    lay = layout_of(cls) if cn not in ('object', 'int', 'str') else 'inst'
+    hs = {'inst': HANDLERS_INST, 'dict': HANDLERS_DICT}.get(lay, HANDLERS_SEQ)
+    return {'cls': cn, 'get': rng.choice(hs), 'exact': rng.random() < 0.2}
+
+
+SHAPES = ['RG', 'RG', 'GRG', 'GRG', 'GRG', 'GRGG', 'GRGRG', 'RRG', 'GRRG', 'RGRG', 'GGRG']
+
+
+def gen_events(rng, heap, root, maxlen, with_regs):
+    shape = rng.choice(SHAPES) if with_regs else 'G'
+    mirror = TableMirror()
+    regs = [gen_registration(rng, heap) for _ in range(shape.count('R'))]
+    via = set()
+    for r in regs:
+        base = CLASSES.get(r['cls']) or BUILTIN_REG.get(r['cls'])
+        via |= {n for n, c in CLASSES.items() if base is not None and issubclass(c, base)}
+    # sub-objects that make good targets of their own: instances of the classes registered for
+    addrs = [a for a, c in enumerate(heap) if c['c'] in via]
+    events = []
+    last = None
+    ri = 0
+    for ch in shape:
+        if ch == 'R':
+            events.append({'reg': regs[ri]})
+            mirror.register(regs[ri])
+            ri += 1
+        else:
+            if last is not None and rng.random() < 0.55:
+                g = json.loads(json.dumps(last))           # the same call again, after the registration
+            else:
+                tgt = root
+                if addrs and rng.random() < 0.25:
+                    tgt = {'r': rng.choice(addrs)}
+                g = {'spelling': gen_steps(rng, heap, tgt, maxlen, mirror, via), 'target': tgt}
+            last = g
+            events.append({'glom': g})
+    if with_regs and rng.random() < 0.5:
+        # derive the repeated path under the table *after* the registrations, so that the earlier
+        # calls see it under the old table (and the later ones valid)
+        gl = [e for e in events if 'glom' in e]
+        tgt = gl[-1]['glom']['target']
+        sp = gen_steps(rng, heap, tgt, maxlen, mirror, via)
+        for e in gl:
+            if rng.random() < 0.8:
+                e['glom'] = {'spelling': sp, 'target': tgt}
+    return events
+
+
+INT_ALPHABET = ['0', '1', '2', '9', '0', '1', '_', '+', '-', ' ', '\t', '\n', '\x0b', '\x0c', '\r', '\x1c', '\x1f',
+                '\x85', '\xa0', '\u1680', '\u2003', '\u2028', '\u202f', '\u3000', '\u200b', '\ufeff', '\u0661',
+                '\u06f1', '\u0967', '\uff11', '\U0001d7cf', '\U0001e951', '\u00b2', '\u2460', '\u2167', '\u4e00',
+                'a', 'e', 'x', 'O', 'l', '.', ',', '\x00', '\u2212', '\x7f']
+
+
+def int_battery(rng, n, base):
+    """single plain segments on a 12-element list: strings over an alphabet of digits of several
+    Unicode blocks, underscores, signs, whitespace of every kind and near misses — int() must
+    accept and reject exactly what the model does"""
+    heap = [{'k': 'list', 'c': 'list', 'v': [{'i': 100 + i} for i in range(12)]}]
+    for _ in range(n):
+        m = rng.random()
+        if m < 0.75:
+            s = ''.join(rng.choice(INT_ALPHABET) for _ in range(rng.choice([1, 2, 2, 3, 3, 4, 5, 6])))
+        elif m < 0.9:
+            s = int_spelling(rng, rng.randrange(-13, 13))
+        else:
+            s = rng.choice(['', ' ', '+', '-']) + '0' * rng.choice([4298, 4299, 4300, 4301]) \
+                + rng.choice(['1', '_1', '1 ', '\u0661'])
+        as_text = '.' not in s and s not in ('*', '**') and rng.random() < 0.5
+        sp = {'text': s} if as_text else {'parts': [{'seg': {'s': s}}]}
+        c = dict(base)
+        c.update({'heap': heap, 'events': [{'glom': {'spelling': sp, 'target': {'r': 0}}}],
+                  'logging': False, 'glommer': False})
+        yield c
+
+
+def attr_battery(base):
+    """every name an instance of every catalogue class (and every scalar) has, and a few it has
+    not, as a single attribute step: the model must know exactly which names exist"""
+    out = []
+    for cn, cls in sorted(CLASSES.items()):
+        lay = LAYOUT[cn]
+        if lay == 'set':
+            continue
+        if lay == 'inst':
+            pool = ['a', 'b'] if cn in ('Slots', 'SlotsFb') else ['a', 'k0']
+            v = [[k, {'i': 5}] for k in pool]
+            heap = [{'k': 'inst', 'c': cn, 'v': v}]
+            if cn in TAB_CLASSES:
+                heap[0]['v'].append(['_tab', {'r': 1}])
+                heap.append({'k': 'dict', 'c': 'dict', 'v': [[{'s': 'c'}, {'i': 6}], [{'s': 'keys'}, {'i': 7}]]})
+        elif lay == 'dict':
+            heap = [{'k': 'dict', 'c': cn, 'v': [[{'s': 'a'}, {'i': 5}]]}]
+        else:
+            nfields = len(getattr(cls, '_fields', ())) or 2
+            heap = [{'k': lay, 'c': cn, 'v': [{'i': 5 + i} for i in range(nfields)]}]
+        names = set(dir(sample_of(cls))) | set(NAMES) | {'zz', '_tab', 'pa', 'pv', 'pc', 'ps', 'keys', '__nope__'}
+        out += [(heap, {'r': 0}, n) for n in sorted(names)]
+    for sc in [None, True, 7, 'abc']:
+        names = set(dir(sc)) | {'a', 'zz', '__nope__'}
+        out += [([], jval(sc), n) for n in sorted(names)]
+    for heap, tgt, n in out:
+        for sp in ({'parts': [{'t': [['.', {'s': n}]]}]}, {'parts': [{'seg': {'s': n}}]}):
+            c = dict(base)
+            c.update({'heap': heap, 'events': [{'glom': {'spelling': sp, 'target': tgt}}],
+                      'logging': False, 'glommer': False})
+            yield c
+
+
 def generate(rng, tier, scale, **focus):
     n = (1500 if tier == 'quick' else 40000) * scale
     maxlen = 6 if tier == 'quick' else 10
-    classes = pyobjs.class_table()
+    t = tables()
+    base = {'classes': t['classes'], 'info': t['info'], 'excs': t['excs']}
     for i in range(n):
-        logging = rng.random() < 0.25
-        heap, root = gen_target(rng, logging, rng.choice([2, 3, 4, 5]))
-        length = rng.randint(0, maxlen)
-        walk, leaf = valid_walk(rng, heap, root, length)
-        steps = [(k, key) for k, key, _ in walk]
-        mode = rng.random()
-        if mode < 0.45 or not steps:
-            pass                                    # valid path (may be shorter than asked)
-        elif mode < 0.57:
-            # boundary indices of a sequence: -n-1, -2n, -n, n, n-1 (just outside / just inside)
-            cands = [i for i, (_, _, cur) in enumerate(walk) if isinstance(cur, dict) and 'r' in cur
-                     and heap[cur['r']]['k'] in ('list', 'tuple')]
-            if cands:
-                k = rng.choice(cands)
-                n_ = len(heap[walk[k][2]['r']]['v'])
-                steps[k] = ('idx', {'i': rng.choice([-n_ - 1, -2 * n_, -n_, n_, n_ - 1, -n_ - 2, -2 * n_ - 1, 2 * n_])})
-                steps = steps[:k + 1] + [s_ for s_ in steps[k + 1:]][:rng.randint(0, 2)]
-        elif mode < 0.75:
-            k = rng.randrange(len(steps))           # plant an invalid segment at position k
-            kind = steps[k][0]
-            steps[k] = (kind if rng.random() < 0.6 else rng.choice(['key', 'idx', 'attr']),
-                        rng.choice(BAD_SEGS))
-            if steps[k][0] == 'attr' and not (isinstance(steps[k][1], dict) and 's' in steps[k][1]):
-                steps[k] = ('key', steps[k][1])
-        elif mode < 0.9:
-            # continue past the leaf (scalar in the middle / beyond the end)
-            for _ in range(rng.randint(1, 2)):
-                steps.append((rng.choice(['key', 'idx', 'attr']), rng.choice(
-                    [{'s': 'a'}, {'s': '0'}, {'i': 0}, {'s': 'zz'}])))
-                if steps[-1][0] == 'attr' and 's' not in steps[-1][1]:
-                    steps[-1] = ('key', steps[-1][1])
-        else:
-            # wrong access kind at position k (T.attr on a dict, T[...] on an object)
-            k = rng.randrange(len(steps))
-            kind, key = steps[k]
-            if isinstance(key, dict) and 's' in key:
-                steps[k] = ('tbad', ['.', key]) if kind != 'attr' else ('tbad', ['[', key])
-            else:
-                steps[k] = ('tbad', ['[', {'s': 'zz'}])
-        can_text = all(k != 'tbad' and text_ok(k, key) for k, key in steps)
-        styles = ['path', 'mixed', 'mixed'] + (['text', 'text'] if can_text else [])
-        if any(k == 'tbad' for k, _ in steps):
-            styles = ['mixed']
-        style = rng.choice(styles)
-        sp = make_parts(rng, steps, style)
-        if style == 'mixed':
-            # force the tbad steps to stay T steps
-            pass
-        yield {'classes': classes, 'heap': heap, 'target': root, 'spelling': sp, 'logging': logging}
+        logging = rng.random() < 0.2
+        fancy = (not logging) and rng.random() < 0.7
+        with_regs = rng.random() < 0.45
+        heap, root = gen_target(rng, logging, rng.choice([2, 3, 4, 5]), fancy)
+        events = gen_events(rng, heap, root, maxlen, with_regs)
+        c = dict(base)
+        c.update({'heap': heap, 'events': events, 'logging': logging,
+                  'glommer': with_regs or rng.random() < 0.3})
+        if with_regs and rng.random() < 0.12:
+            c['defaults'] = False           # Glommer(register_default_types=False): an empty table
+        yield c
+    yield from int_battery(rng, (300 if tier == 'quick' else 6000) * scale, base)
+    battery = list(attr_battery(base))
+    yield from (battery if tier == 'thorough' else rng.sample(battery, 200 * scale))
     if tier == 'thorough' and not focus:
-        yield from exhaustive(classes)
+        yield from exhaustive(base)
+        yield from exhaustive_histories(base)
 
 
-def exhaustive(classes):
+def exhaustive(base):
     """all text paths of length <= 3 over a 4-name alphabet on fixed targets"""
     import itertools
     fixed = []
     rng = random.Random(12345)
     while len(fixed) < 40:
-        heap, root = gen_target(rng, False, 3)
+        heap, root = gen_target(rng, False, 3, len(fixed) % 2 == 1)
         if heap:
             fixed.append((heap, root))
     alpha = ['a', 'b', '0', '1']
@@ -249,18 +764,130 @@ def exhaustive(classes):
                     sp = {'parts': []}
                 else:
                     sp = {'text': '.'.join(segs)}
-                yield {'classes': classes, 'heap': heap, 'target': root, 'spelling': sp, 'logging': False}
+                c = dict(base)
+                c.update({'heap': heap, 'events': [{'glom': {'spelling': sp, 'target': root}}],
+                          'logging': False, 'glommer': False})
+                yield c
+
+
+def exhaustive_histories(base):
+    """every sequence of length <= 4 over two calls and four registrations, on a fixed target
+    with a Row(Rec) instance that carries a private table"""
+    import itertools
+    heap = [{'k': 'dict', 'c': 'dict', 'v': [[{'s': 'rows'}, {'r': 1}]]},
+            {'k': 'list', 'c': 'list', 'v': [{'r': 2}, {'r': 5}]},
+            {'k': 'inst', 'c': 'Row', 'v': [['b', {'i': 1}], ['_tab', {'r': 3}]]},
+            {'k': 'dict', 'c': 'dict', 'v': [[{'s': 'a'}, {'r': 4}], [{'s': 'b'}, {'i': 2}]]},
+            {'k': 'inst', 'c': 'Obj', 'v': []},
+            {'k': 'inst', 'c': 'Row2', 'v': [['a', {'r': 4}]]}]
+    root = {'r': 0}
+    alphabet = [{'glom': {'spelling': {'text': 'rows.0.a'}, 'target': root}},
+                {'glom': {'spelling': {'parts': [{'seg': {'s': 'rows'}}, {'seg': {'i': 1}}, {'seg': {'s': 'a'}}]},
+                          'target': root}},
+                {'glom': {'spelling': {'text': 'b'}, 'target': {'r': 2}}},
+                {'reg': {'cls': 'Rec', 'get': {'table': '_tab'}, 'exact': False}},
+                {'reg': {'cls': 'Row', 'get': 'getattr', 'exact': True}},
+                {'reg': {'cls': 'Rec', 'get': False, 'exact': False}},
+                {'reg': {'cls': 'Row', 'get': None, 'exact': False}}]
+    for L in range(1, 5):
+        for evs in itertools.product(alphabet, repeat=L):
+            if not any('glom' in e for e in evs):
+                continue
+            c = dict(base)
+            c.update({'heap': heap, 'events': list(evs), 'logging': False, 'glommer': True})
+            yield c
 
 
 def corpus():
+    """minimised past failures (corpus/C01.jsonl holds heap + events; the class tables are the
+    catalogue's and are filled in here)"""
     p = os.path.join(os.path.dirname(os.path.dirname(os.path.dirname(os.path.abspath(__file__)))),
                      'corpus', 'C01.jsonl')
     out = []
+    t = tables()
     if os.path.exists(p):
         for line in open(p):
             if line.strip():
-                out.append(json.loads(line))
+                c = json.loads(line)
+                c.setdefault('classes', t['classes'])
+                c.setdefault('info', t['info'])
+                c.setdefault('excs', t['excs'])
+                c.setdefault('logging', False)
+                c.setdefault('glommer', True)
+                out.append(c)
     return out
+
+
+# ------------------------------------------------------------------ implementation runner
+def decode(heap):
+    """build real objects from heap JSON (sharing and cycles included); like pyobjs.decode, for
+    the catalogue above (namedtuples, __slots__, dict subclasses)"""
+    objs = [None] * len(heap)
+    pending = []
+    for a, cell in enumerate(heap):
+        cls = CLASSES[cell['c']]
+        lay = cell['k']
+        if lay in ('dict', 'list', 'inst') or (lay == 'set' and cls is set):
+            objs[a] = OrderedDict() if cls is OrderedDict else cls.__new__(cls)
+            if cls is Counter:
+                objs[a] = Counter()
+        else:
+            pending.append(a)
+
+    def dv(j):
+        if j is None:
+            return None
+        if 'b' in j:
+            return j['b']
+        if 'i' in j:
+            return j['i']
+        if 's' in j:
+            return j['s']
+        if 'r' in j:
+            a = j['r']
+            if objs[a] is None:
+                build_immutable(a)
+            return objs[a]
+        raise ValueError('cannot decode %r' % (j,))
+
+    building = set()
+
+    def build_immutable(a):
+        if a in building:
+            raise ValueError('cycle through immutable container at %d' % a)
+        building.add(a)
+        cell = heap[a]
+        cls = CLASSES[cell['c']]
+        items = [dv(x) for x in cell['v']]
+        objs[a] = cls(*items) if hasattr(cls, '_fields') else cls(items)
+        building.discard(a)
+
+    for a in pending:
+        if objs[a] is None:
+            build_immutable(a)
+    for a, cell in enumerate(heap):
+        lay = cell['k']
+        o = objs[a]
+        if lay == 'dict':
+            setitem = OrderedDict.__setitem__ if isinstance(o, OrderedDict) else dict.__setitem__
+            for k, v in cell['v']:
+                setitem(o, dv(k), dv(v))
+        elif lay == 'list':
+            list.extend(o, [dv(x) for x in cell['v']])
+        elif lay == 'set' and isinstance(o, set):
+            for x in cell['v']:
+                o.add(dv(x))
+        elif lay == 'inst':
+            try:
+                d = object.__getattribute__(o, '__dict__')
+            except AttributeError:
+                d = None
+            for k, v in cell['v']:
+                if d is not None:
+                    d[k] = dv(v)
+                else:
+                    object.__setattr__(o, k, dv(v))
+    return objs, dv
 
 
 def exc_name(e):
@@ -270,79 +897,142 @@ def exc_name(e):
     return type(e).__name__
 
 
+def handler_fn(h):
+    import glom.core
+    if h == 'getattr':
+        return getattr
+    if h == 'getitem':
+        return operator.getitem
+    if h == 'seq':
+        return glom.core._get_sequence_item
+    if h is False:
+        return False
+    if 'table' in h:
+        attr = h['table']
+        return lambda obj, name: getattr(obj, attr)[name]
+    if 'raises' in h:
+        cls = EXCS[h['raises']]
+
+        def raiser(obj, name):
+            raise cls(name)
+        return raiser
+    raise ValueError(h)
+
+
+def build_spec(sp, dv):
+    from glom import Path, T
+    if 'text' in sp:
+        return sp['text']
+    parts = []
+    for p in sp['parts']:
+        if 'seg' in p:
+            parts.append(dv(p['seg']))
+        else:
+            t = T
+            for op, arg in p['t']:
+                a = dv(arg)
+                if op == '.':
+                    t = t.__(a[2:]) if a.startswith('__') else getattr(t, a)
+                else:
+                    t = t[a]
+            parts.append(t)
+    return Path(*parts)
+
+
+def enc_result(res, ids):
+    if id(res) in ids:
+        return {'r': ids[id(res)]}
+    if res is None or isinstance(res, (bool, int, str)):
+        return jval(res)
+    return {'sent': 'opaque'}
+
+
 def run_impl(case):
     import glom
-    from glom import Path, T, GlomError, PathAccessError
-    objs, dv = pyobjs.decode(case['heap'])
+    from glom import GlomError, PathAccessError
+    objs, dv = decode(case['heap'])
     ids = {}
     for a, o in enumerate(objs):
         ids.setdefault(id(o), a)
-    target = dv(case['target'])
-    sp = case['spelling']
-    if 'text' in sp:
-        spec = sp['text']
-    else:
-        parts = []
-        for p in sp['parts']:
-            if 'seg' in p:
-                parts.append(dv(p['seg']))
-            else:
-                t = T
-                for op, arg in p['t']:
-                    a = dv(arg)
-                    t = getattr(t, a) if op == '.' else t[a]
-                parts.append(t)
-        spec = Path(*parts)
-    del pyobjs.ACCESS_LOG[:]
+    glommer = None
+    if case.get('glommer') or case.get('defaults') is False or any('reg' in e for e in case['events']):
+        glommer = glom.Glommer() if case.get('defaults', True) else glom.Glommer(register_default_types=False)
+    call = glommer.glom if glommer is not None else glom.glom
     out = dict(case)
-    try:
-        res = glom.glom(target, spec)
-    except PathAccessError as e:
-        out['impl'] = {'pae': {'idx': e.part_idx, 'exc': exc_name(e.exc),
-                               'glom': isinstance(e, GlomError), 'key': isinstance(e, KeyError),
-                               'index': isinstance(e, IndexError), 'attr': isinstance(e, AttributeError)}}
-    except Exception as e:
-        out['impl'] = {'other': exc_name(e)}
-    else:
-        if id(res) in ids:
-            out['impl'] = {'ok': {'r': ids[id(res)]}}
+    impl = []
+    for ev in case['events']:
+        if 'reg' in ev:
+            r = ev['reg']
+            cls = CLASSES.get(r['cls']) or BUILTIN_REG[r['cls']]
+            kw = {}
+            if r['get'] is not None:
+                kw['get'] = handler_fn(r['get'])
+            if r['exact']:
+                kw['exact'] = True
+            glommer.register(cls, **kw)
+            continue
+        g = ev['glom']
+        target = dv(g['target'])
+        spec = build_spec(g['spelling'], dv)
+        del pyobjs.ACCESS_LOG[:]
+        try:
+            res = call(target, spec)
+        except PathAccessError as e:
+            obs = {'pae': {'idx': e.part_idx, 'exc': exc_name(e.exc),
+                           'glom': isinstance(e, GlomError), 'key': isinstance(e, KeyError),
+                           'index': isinstance(e, IndexError), 'attr': isinstance(e, AttributeError)}}
+        except Exception as e:
+            obs = {'other': exc_name(e)}
         else:
-            out['impl'] = {'ok': pyobjs.enc_val(res, lambda v: None)}
-    log = [ids.get(id(o)) for o in pyobjs.ACCESS_LOG]
-    del pyobjs.ACCESS_LOG[:]
-    out['impl_touched'] = log if case.get('logging') and None not in log else None
+            obs = {'ok': enc_result(res, ids)}
+        log = [ids.get(id(o)) for o in pyobjs.ACCESS_LOG]
+        del pyobjs.ACCESS_LOG[:]
+        impl.append({'obs': obs, 'touched': log if case.get('logging') and None not in log else None})
+    out['impl'] = impl
     return out
 
 
 def key(case):
-    return {'heap': case['heap'], 'target': case['target'], 'spelling': case['spelling']}
+    return {'heap': case['heap'], 'events': case['events'], 'defaults': case.get('defaults', True)}
 
 
-def path_len(case):
-    sp = case['spelling']
+def path_len(sp):
     if 'text' in sp:
         return len(sp['text'].split('.'))
     return sum(1 if 'seg' in p else len(p['t']) for p in sp['parts'])
 
 
 def nontrivial(case, verdict):
-    return path_len(case) >= 2 or 'pae' in (case.get('impl') or {})
+    gl = [e['glom'] for e in case['events'] if 'glom' in e]
+    return any(path_len(g['spelling']) >= 2 for g in gl) or \
+        any('pae' in (o.get('obs') or {}) for o in (case.get('impl') or []))
 
 
 def shrink(case):
-    sp = case['spelling']
     base = {k: v for k, v in case.items() if not k.startswith('impl')}
-    if 'parts' in sp:
-        ps = sp['parts']
-        for i in range(len(ps)):
-            c = dict(base); c['spelling'] = {'parts': ps[:i] + ps[i + 1:]}
+    evs = case['events']
+    # drop an event
+    for i in range(len(evs)):
+        if len(evs) > 1:
+            c = dict(base); c['events'] = evs[:i] + evs[i + 1:]
             yield c
-    else:
-        segs = sp['text'].split('.')
-        for i in range(len(segs)):
+    # shorten a path
+    for i, ev in enumerate(evs):
+        if 'glom' not in ev:
+            continue
+        sp = ev['glom']['spelling']
+        cands = []
+        if 'parts' in sp:
+            ps = sp['parts']
+            cands = [{'parts': ps[:j] + ps[j + 1:]} for j in range(len(ps))]
+        else:
+            segs = sp['text'].split('.')
             if len(segs) > 1:
-                c = dict(base); c['spelling'] = {'text': '.'.join(segs[:i] + segs[i + 1:])}
-                yield c
+                cands = [{'text': '.'.join(segs[:j] + segs[j + 1:])} for j in range(len(segs))]
+        for sp2 in cands:
+            c = dict(base)
+            c['events'] = evs[:i] + [{'glom': {'spelling': sp2, 'target': ev['glom']['target']}}] + evs[i + 1:]
+            yield c
     # drop children of containers not needed
     heap = case['heap']
     for a, cell in enumerate(heap):
